@@ -38,6 +38,8 @@ func init() {
 			{Name: "alias", Run: runAlias},
 			{Name: "objstruct", Run: runObjStruct},
 			{Name: "lattice", Run: runLattice},
+			{Name: "sliceref", Run: brig.RunSliceRef},
+			{Name: "mapkeys", Run: brig.RunMapKeys},
 			{Name: "kindtwins", Run: func(r *engine.Run) { brig.RunKindTwins(r, true) }},
 			{Name: "histories", Run: runHistories},
 			{Name: "lethal", Run: runLethal},
